@@ -15,16 +15,23 @@ DTYPES = ["bool", "int8", "int32", "int64", "float32", "float64", "complex64", "
 LAYOUTS = ["C", "F", "rev", "slice"]
 
 
+# "for all tensor orders": orders 6-10 with a reduced parameter menu (prefix / suffix / single / reversed row-mode lists); order >= 9
+# is where containers that happen to iterate small integers in increasing order (sets of ints < 8) stop doing so
+HIGH_ORDER = [(2,) * 6, (2, 1, 2, 3, 1, 2, 2), (2,) * 8, (2,) * 9, (1, 2, 2, 1, 2, 2, 2, 2, 2), (2,) * 10, (2, 1, 2, 2, 1, 2, 2, 2, 1, 2)]
+
+
 def shapes_for(tier):
     out = []
     if tier == "quick":
         for n in range(1, 5):
             out += list(itertools.product((1, 2, 3), repeat=n))
         out += list(itertools.product((1, 2), repeat=5))
+        out += HIGH_ORDER
     else:
         for n in range(1, 5):
             out += list(itertools.product((1, 2, 3, 4), repeat=n))
         out += list(itertools.product((1, 2, 3), repeat=5))
+        out += HIGH_ORDER + [(2,) * 11, (1, 2, 2, 1, 2, 2, 2, 1, 2, 2, 2, 2)]
     return out
 
 
@@ -122,7 +129,7 @@ class C01(Check):
     pid = "C01"
     level = "exploration"
     design_ref = "DESIGN.md §4 C01"
-    rule = ("complete product: shape (order 1-5, small dims incl. size-1 modes) x operation parameters (every mode; every "
+    rule = ("complete product: shape (order 1-5, small dims incl. size-1 modes; orders 6-10 [12 thorough] with a reduced menu of mode lists) x operation parameters (every mode; every "
             "skip_begin/skip_end/ravel; every ordered row_modes x {None, every ordering of the complement}; ill-formed mode "
             "sets) x 8 dtypes x 4 memory layouts; a case is (shape, op, params, dtype, layout); non-trivial iff the tensor has "
             ">=2 entries and the reference permutation is not the identity (or the call must raise)")
@@ -138,6 +145,24 @@ class C01(Check):
         for mode in range(n):
             yield {"op": "unfold", "shape": shape, "mode": mode, "seed": seed}
         yield {"op": "vec", "shape": shape, "seed": seed}
+        if n >= 6:
+            for sb, se in ((0, 0), (1, 0), (0, 1), (1, 1), (2, 0), (n - 2, 1), (3, n - 4)):
+                mid = n - sb - se
+                if mid < 1:
+                    continue
+                for mode in range(mid):
+                    yield {"op": "partial_unfold", "shape": shape, "mode": mode, "sb": sb, "se": se, "ravel": bool(mode % 2), "seed": seed}
+                yield {"op": "partial_vec", "shape": shape, "sb": sb, "se": se, "seed": seed}
+            row_lists = [list(range(k)) for k in range(1, n + 1)] + [list(range(k, n)) for k in range(1, n)] + [[m] for m in range(n)]
+            row_lists += [list(reversed(range(k))) for k in range(2, n)] + [[0, n - 1], [n - 1, 0], [1, 3, 5], [n - 2, 2]]
+            for rows in row_lists:
+                yield {"op": "matricize", "shape": shape, "rows": rows, "cols": None, "seed": seed}
+                rest = [m for m in range(n) if m not in rows]
+                if rest:
+                    yield {"op": "matricize", "shape": shape, "rows": rows, "cols": list(reversed(rest)), "seed": seed}
+            for m in range(n):
+                yield {"op": "matricize", "shape": shape, "rows": m, "cols": None, "seed": seed}
+            return
         for sb in range(0, n):
             for se in range(0, n - sb):
                 mid = n - sb - se
